@@ -48,13 +48,19 @@ def handle (op : String) (j : Json) : Option (R Json) :=
       let s ← specOf j
       let c ← getRats j "centres"
       let pp ← getStr j "pp"
-      let norm ← match pp with
+      let norm : Option (Option Rat) ← match pp with
         | "none" => pure none
-        | "given" => (do let q ← getRat j "norm"; pure (some q))
-        | _ => match minL c, maxL c with
-          | some a, some b => pure (some (integrate s a b))
-          | _, _ => pure none
-      pure (exceptJ (bin s (← getBool j "simps") (← getBool j "symmetric") (← getRat j "fillL") (← getRat j "fillR") norm c))
+        | "given" => (do let q ← getRat j "norm"; pure (some (some q)))
+        | _ => pure (some none)
+      let intC := match optVal j "intC" with | some (Json.bool b) => b | _ => false
+      let s0 ← getBool j "simps"; let sy ← getBool j "symmetric"
+      let fl ← getRat j "fillL"; let fr ← getRat j "fillR"
+      match binRaw s s0 sy fl fr c intC with
+      | .error e => pure (errJ e.name)
+      | .ok raw =>
+        match bin s s0 sy fl fr norm c intC with
+        | .error e => pure (errJ e.name)
+        | .ok l => pure (okJ [("v", ratsJ l), ("rawsum", ratToJson (sumL raw))])
   | _ => none
 
 end Ops.C15
